@@ -89,6 +89,15 @@ def loadConfig (cfg : Y) (s : Config) : Config × M Unit :=
 def Config.flags (s : Config) : Flags :=
   ⟨s.mnemFull.getD false, s.opsFull.getD false⟩
 
+/-- `load_macros_from_args`: the `macros` lists of the extra macro files, concatenated in file order -/
+def extraMacros (macroDocs : List (M Y)) : M (List Y) :=
+  macroDocs.foldlM (fun acc md => do
+    match (← md) with
+    | .dict m => match dictGet m "macros" with
+      | some (.list l) => pure (acc ++ l)
+      | _ => fail "TypeError: macros of a macro file is not a list"
+    | _ => fail "AttributeError: macro file is not a dict") []
+
 /-- `Yaml2Regex(path, macros).produce_regex()` on already-loaded documents:
 `doc` is the rule file, `macroDocs` the extra macro files in command-line order -/
 def compileRule (doc : Y) (macroDocs : List (M Y)) (s : Config) : Config × M Rx :=
@@ -106,13 +115,7 @@ def compileRule (doc : Y) (macroDocs : List (M Y)) (s : Config) : Config × M Rx
           | none => pure []
           | some (.list l) => pure l
           | some _ => fail "Invalid macros in the pattern file"
-        let extra ← if macros.isEmpty && macroDocs.isEmpty then pure [] else
-          macroDocs.foldlM (fun acc md => do
-            match (← md) with
-            | .dict m => match dictGet m "macros" with
-              | some (.list l) => pure (acc ++ l)
-              | _ => fail "TypeError: macros of a macro file is not a list"
-            | _ => fail "AttributeError: macro file is not a dict") []
+        let extra ← if macros.isEmpty && macroDocs.isEmpty then pure [] else extraMacros macroDocs
         let tree ← if !macros.isEmpty || !macroDocs.isEmpty then resolveAllMacros (extra ++ macros) top
                    else pure top
         compileTree s'.flags tree)
